@@ -10,13 +10,14 @@ CONSTANTS
   MsgsSet = {0, 2}
   BytesSet = {0, 2}
   CompactSet = {FALSE}
-  LagSet = {0, 3}
+  LagSet = {0}
   BigSet = {FALSE, TRUE}
   MaxCleans = 2
   MaxTicks = 1
   UseWindow = TRUE
   UseReopen = FALSE
   UseEpochs = FALSE
+  OccSet = {FALSE}
   UseReaders = FALSE
 INVARIANTS CTypeOK C01_Ordered SegsConsistent NoEmptyInnerSegment
 PROPERTIES StepsOK
